@@ -43,8 +43,8 @@ type sched struct {
 	cancel   *ssa.Function
 	// the scheduling loop (outer) and the per-stage loop (inner) of Schedule
 	outer, inner *an.Loop
-	outerFn      *ssa.Function   // function containing the scheduling loop (loopFn or a synchronous caller of it)
-	innerAnchor  *ssa.BasicBlock // block of outerFn through which a pass enters the per-stage loop (its header, or the call that reaches it)
+	outerFn      *ssa.Function         // function containing the scheduling loop (loopFn or a synchronous caller of it)
+	innerAnchor  *ssa.BasicBlock       // block of outerFn through which a pass enters the per-stage loop (its header, or the call that reaches it)
 	launch       *ssa.Go               // the go statement that starts a stage
 	launchFn     *ssa.Function         // function containing it
 	loopFn       *ssa.Function         // function containing the per-stage loop (launchFn or a synchronous caller of it)
